@@ -138,6 +138,14 @@ CHECKS = {
             "forced run without other clients must equal a generation into an empty project.",
             "Hash seed, process history, wall clock and output root are the owned nondeterminism sources; id()-derived names are covered through fresh-vs-warm processes.",
             "4 C09"),
+    "C15": ("exploration", "complete position x payload matrix through the real generator; AST-skeleton comparison against the benign twin + evaluation of meaning-carrying literals",
+            "Every one of 27 text-bearing positions of a reference document x every payload of a 31-entry hostile dictionary (quotes, triple quotes, backslashes, line "
+            "terminators incl. CR/NEL/LS, control characters, non-ASCII, emoji, keyword, long lines and long+special combinations) is generated; every emitted file must "
+            "parse and compile, its tree of AST node types must equal that of the benign twin (class/module members and dict entries as multisets), and enum values, wire "
+            "keys, parameter names, defaults and discriminator values must evaluate to exactly the original strings. Thorough adds all strings of length<=3 over 4 "
+            "critical characters at every position and all position pairs for 4 payloads.",
+            "The payload dictionary is finite; 'random Unicode strings' of the property text are replaced by this matrix.",
+            "4 C15"),
 }
 
 NOT_YET = {}
